@@ -9,7 +9,7 @@
      depth_ok s e     : the written document nests less than 128 deep (serde_json's recursion limit)
      wire_event s e   : no Some(x) printing as `null` sits in a field that is skipped when None
      exact_event s e  : no Some(x) printing as `null` anywhere (such a value cannot come out of the reader) *)
-From RipV Require Import Base.Prelude Base.Json Base.JsonParse Model.Wire Model.WireSized Proofs.WireProofs Proofs.WireOrderProofs Proofs.WireSizedProofs Gen.EventSchema Gen.Sinks.
+From RipV Require Import Base.Prelude Base.Json Base.JsonParse Model.Wire Model.WireSized Proofs.WireProofs Proofs.WireOrderProofs Proofs.WireSizedProofs Model.WireRun Proofs.WireRunProofs Gen.EventSchema Gen.Sinks Gen.RequestHead.
 
 (* the premise of everything below holds for the schema extracted from the current source *)
 Theorem c03_current_schema_wf : wf_schema gen_schema = true.
@@ -357,6 +357,71 @@ Theorem c03_skip_without_default_refuted :
 Proof. exact skip_without_default_refuted. Qed.
 Print Assumptions c03_skip_without_default_refuted.
 
+(* ---- who numbers a session's frames: the run (Model/WireRun.v).  The views agree for ANY numbering; replaying the store from
+   disk goes through the validated replay, which accepts a stream only when it is numbered 0,1,2,.. in file order ---- *)
+
+(* the head of a provider request (capture frame behind RIP_OPENRESPONSES_DUMP_REQUEST, then request_started), re-read from
+   stream_openresponses_request on every run: with the switch on and off it is a concatenation of "build, emit, bump" sites *)
+Theorem c03_current_request_head : gen_ok_request_head && wf_head gen_request_head = true.
+Proof. exact gen_request_head_ok. Qed.
+Print Assumptions c03_current_request_head.
+
+(* every run made of emit sites numbers its frames c, c+1, .. and hands the counter back at c + number of frames *)
+Theorem c03_run_counter : forall (c : N) (p : list rstmt),
+  wf_run p = true ->
+  r_out (rrun c p) = number c (sites_of p)
+  /\ nums_from c (r_out (rrun c p)) = true
+  /\ r_cnt (rrun c p) = c + N.of_nat (length (r_out (rrun c p))).
+Proof. exact run_numbered. Qed.
+Print Assumptions c03_run_counter.
+
+(* such a run behind the session emitter as written and an open append gate, on a healthy disk, for EVERY schema, every frame
+   maker that stores the number it is given, every program of sites: live = the run's frames, log view = snapshot = the live
+   frames, and the stream the store will replay is numbered from 0 (the validated replay accepts it) *)
+Theorem c03_run_of_sites_replays : forall (g : append_gate) (s : schema) (key : N * str) (mk : N -> N -> event) (p : list rstmt),
+  wf_append_gate g = true -> wf_schema s = true -> wf_run p = true ->
+  (forall t n, e_seq (mk t n) = n) -> (forall t n, stream_key s (mk t n) = key) -> all_ok s (run_frames mk 0 p) ->
+  view_live s key (sess_sinks g s (run_frames mk 0 p)) = run_frames mk 0 p
+  /\ view_log s key (sess_sinks g s (run_frames mk 0 p)) = Some (map (canon_event s) (run_frames mk 0 p))
+  /\ view_snapshot s key (sess_sinks g s (run_frames mk 0 p)) = Some (map (canon_event s) (run_frames mk 0 p))
+  /\ seqs_from 0 (map (canon_event s) (run_frames mk 0 p)) = true.
+Proof. exact run_of_sites_replays. Qed.
+Print Assumptions c03_run_of_sites_replays.
+
+(* .. in particular a run around ANY head that meets the regenerated obligation, with the switch on and with the switch off *)
+Theorem c03_run_around_head_replays : forall (g : append_gate) (s : schema) (key : N * str) (mk : N -> N -> event) (h : head) (capture : bool),
+  wf_append_gate g = true -> wf_schema s = true -> wf_head h = true ->
+  (forall t n, e_seq (mk t n) = n) -> (forall t n, stream_key s (mk t n) = key) ->
+  all_ok s (run_frames mk 0 (run_around capture h)) ->
+  view_live s key (sess_sinks g s (run_frames mk 0 (run_around capture h))) = run_frames mk 0 (run_around capture h)
+  /\ view_log s key (sess_sinks g s (run_frames mk 0 (run_around capture h))) = Some (map (canon_event s) (run_frames mk 0 (run_around capture h)))
+  /\ view_snapshot s key (sess_sinks g s (run_frames mk 0 (run_around capture h))) = Some (map (canon_event s) (run_frames mk 0 (run_around capture h)))
+  /\ seqs_from 0 (map (canon_event s) (run_frames mk 0 (run_around capture h))) = true.
+Proof. exact run_around_head_replays. Qed.
+Print Assumptions c03_run_around_head_replays.
+
+(* request_started built (seq and all) BEFORE the capture frame and emitted after it (the seeded change C03-10): with the switch
+   off the run is the run of the code; with the switch on the three views still agree frame for frame - every sink receives
+   the frames as they were built - and the stream in the log reads 0,1,1,3: the validated replay refuses it *)
+Theorem c03_request_head_built_early_refuted :
+  exists h s key es,
+    wf_head h = false /\ wf_schema s = true /\ all_ok s es /\ es = run_frames demo_mk 0 (run_around true h)
+    /\ view_live s key (sess_sinks [GSerialize] s es) = es
+    /\ view_log s key (sess_sinks [GSerialize] s es) = Some (map (canon_event s) es)
+    /\ view_snapshot s key (sess_sinks [GSerialize] s es) = Some (map (canon_event s) es)
+    /\ seqs_from 0 (map (canon_event s) es) = false
+    /\ run_frames demo_mk 0 (run_around false h) = run_frames demo_mk 0 (run_around false head_code).
+Proof. exact head_misnumbered_refuted. Qed.
+Print Assumptions c03_request_head_built_early_refuted.
+
+(* the capture frame built first and emitted after request_started (the seeded change C01-11): the same *)
+Theorem c03_capture_frame_emitted_late_refuted :
+  wf_head head_capture_emitted_late = false
+  /\ seqs_from 0 (map (canon_event demo_schema) late_frames) = false
+  /\ seqs_from 0 (map (canon_event demo_schema) code_frames) = true.
+Proof. exact head_capture_late_refuted. Qed.
+Print Assumptions c03_capture_frame_emitted_late_refuted.
+
 (* ---- the hypotheses are satisfiable ---- *)
 Example c03_demo_schema_wf : wf_schema demo_schema = true.
 Proof. exact demo_schema_wf. Qed.
@@ -405,3 +470,10 @@ Example c03_fold_demo :
   ssum utf8_len (SObj [([107], SStr [([97; 99; 107; 58; 32], 1); ([34; 10; 1; 233; 8364; 128512], 1000000)])]) = 19000013
   /\ bytes (Json.print (unfold (SObj [([107], SStr [([97; 99; 107; 58; 32], 1); ([34; 10; 1; 233; 8364; 128512], 3)])]))) = 70.
 Proof. exact fold_demo. Qed.
+
+Example c03_run_of_sites_example :
+  wf_run (run_around true head_code) = true /\ (forall t n, e_seq (demo_mk t n) = n)
+  /\ (forall t n, stream_key demo_schema (demo_mk t n) = demo_key) /\ all_ok demo_schema code_frames
+  /\ r_out (rrun 0 (run_around true head_code)) = [(7, 0); (0, 1); (1, 2); (8, 3)]
+  /\ r_out (rrun 0 (run_around false head_code)) = [(7, 0); (1, 1); (8, 2)].
+Proof. exact run_of_sites_example. Qed.
